@@ -137,12 +137,12 @@ def v2_text(rows, q='"', sep="\r\n"):
     return '<?xml version="1.0" encoding="UTF-8" standalone="no"?>' + sep + "<?OFX " + " ".join(f"{k}={q}{v}{q}" for k, v in rows) + "?>" + sep
 
 
-def must_refuse(ctx, H, text, what, kind):
+def must_refuse(ctx, H, text, what, kind, enc="ascii"):
     ctx.ev()
     ctx.count("corruptions")
-    case = {"op": "corrupt", "text": text, "what": what, "kind": kind}
+    case = {"op": "corrupt", "text": text, "what": what, "kind": kind, "enc": enc}
     try:
-        h, body = H.parse_header(io.BytesIO((text + BODY).encode("ascii")))
+        h, body = H.parse_header(io.BytesIO((text + BODY).encode(enc)))
     except H.OFXHeaderError:
         return
     except Exception as e:
@@ -214,6 +214,13 @@ def corruptions(ctx, H, rng, version1, version2):
         for i in range(len(rows) - 1):
             sw = rows[:i] + [rows[i + 1], rows[i]] + rows[i + 2:]
             must_refuse(ctx, H, v2_text(sw, q), f"transpose={rows[i][0]}", "v2")
+    # a stray byte outside ASCII inside a token (a FILE with such a byte: read through parse_header as bytes)
+    for field, val in v1_lines(version1)[:7]:
+        for stray in ("\xe9", "\xa0", "\xff", "\x85"):
+            for pos in (1, len(val) - 1):  # inside the token (a trailing NBSP/NEL reads as blank space: not judged)
+                bad = val[:pos] + stray + val[pos:]
+                ctx.count("stray_high_bytes")
+                must_refuse(ctx, H, v1_text(v1_lines(version1, **{field: bad})), f"{field}=stray-byte-{ord(stray):02x}", "v1", enc="latin_1")
     # numbers written with digits that are not ASCII digits (through the string entry points; a file would have to be decoded first)
     for cls, text in ((H.OFXHeaderV1, v1_text(v1_lines(version1))), (H.OFXHeaderV2, v2_text(v2_attrs(version2)))):
         for field, val in (("VERSION", str(version1 if cls is H.OFXHeaderV1 else version2)), ("OFXHEADER", "100" if cls is H.OFXHeaderV1 else "200")):
@@ -348,7 +355,7 @@ def replay(ctx, case):
     elif op == "corrupt-str":
         replay_str(ctx, H, case)
     elif op == "corrupt":
-        must_refuse(ctx, H, case["text"], case["what"], case["kind"])
+        must_refuse(ctx, H, case["text"], case["what"], case["kind"], case.get("enc", "ascii"))
     elif op == "make_header_refuse":
         arg = case["version"]
         ctx.ev()
